@@ -1,4 +1,5 @@
 CONSTANTS
+  Sites <- SiteTable
   BITS = 6
 SPECIFICATION Spec
 INVARIANT ITypeOK
